@@ -253,3 +253,10 @@ package sql
 //@ requires obj != nil
 //@ inline PutObject
 //@ effect[C02:in-place-append-only-to-the-null-version] every sms.objectRepository.UpdateObjectByIdAndOptimisticLockVersion(_, _, $e, _) where $e != nil && specNotAGeneratedVersion($e.VersionID)
+
+// C06. CommonPrefixes: a key is grouped iff it contains the delimiter after the prefix, under the key's beginning up to
+// and including the first such delimiter; a key that does not start with the prefix is never grouped.
+//@ func determineCommonPrefix
+//@ mode nosafety
+//@ ensures[C06:common-prefix-up-to-the-first-delimiter-after-the-prefix] strings.HasPrefix(key, prefix) ==> specCommonPrefixOK(prefix, key, delimiter, result)
+//@ ensures[C06:foreign-key-never-grouped] !strings.HasPrefix(key, prefix) ==> result == nil
